@@ -12,7 +12,7 @@ import (
 func init() {
 	register(&core.Rule{ID: "C12.7", Prop: "C12", MinSites: 3,
 		Desc: "stored or pooled, never both: a local slice (or a sub-slice of it) that was stored into a struct/node or handed to a retaining function since its last assignment is not returned to the pool",
-		Run: runC12_7})
+		Run:  runC12_7})
 }
 
 // retains reports whether the i-th parameter of a module function is kept beyond the call: stored
